@@ -335,7 +335,13 @@ class MiniEval:
                 return tuple(items)
             return items if isinstance(e, ast.List) else set(items)
         if isinstance(e, ast.Dict):
-            return {self.expr(k, env): self.expr(v, env) for k, v in zip(e.keys, e.values) if k is not None}
+            out: dict = {}
+            for k, v in zip(e.keys, e.values):
+                if k is None:
+                    out.update(self.expr(v, env))  # {**mapping}
+                else:
+                    out[self.expr(k, env)] = self.expr(v, env)
+            return out
         if isinstance(e, ast.BoolOp):
             if isinstance(e.op, ast.And):
                 v = True
